@@ -316,5 +316,14 @@ Den(e, d, env, cfg) ==
            ELSE "E"
 
 Outcome(e, d, cfg) == Den(e, d, <<>>, cfg)
+
+\* the elements of a top-level quantifier as the specification sees them: [ok, kind, parts]
+ElemParts(e, d, cfg) ==
+  LET r == Resolve(d, e.sel.path, <<>>, cfg) IN
+  IF r.r # "ok" THEN [ok |-> FALSE, kind |-> "", parts |-> <<>>]
+  ELSE IF r.v.k = "map" /\ r.v.kt.c = "str" /\ r.v.kt.t = "string"
+       THEN [ok |-> TRUE, kind |-> "map", parts |-> [i \in 1..Len(r.v.v) |-> r.v.v[i].key.v]]
+  ELSE IF r.v.k = "list" THEN [ok |-> TRUE, kind |-> "list", parts |-> [i \in 1..Len(r.v.v) |-> ToString(i - 1)]]
+  ELSE [ok |-> FALSE, kind |-> "", parts |-> <<>>]
 DefaultCfg == [tag |-> "bexpr", hook |-> "none", unknown |-> None]
 =============================================================================
